@@ -110,7 +110,7 @@ REGISTRY = {'C09': check_C09}
 
 
 # ------------------------------------------------------------------------ C17
-def _worker(histories, hashseed, mp=False):
+def _worker(histories, hashseed, mp=False, flags=(), pyflags=()):
     """Replay *histories* in a fresh interpreter with the given PYTHONHASHSEED; returns one log per history."""
     import json
     import os
@@ -118,7 +118,7 @@ def _worker(histories, hashseed, mp=False):
     import sys
     env = dict(os.environ, PYTHONHASHSEED=str(hashseed), PYTHONPATH=os.environ.get('PENMAN_SRC', '/repo'), PYTHONDONTWRITEBYTECODE='1')
     data = ''.join(json.dumps(h) + '\n' for h in histories)
-    p = subprocess.run([sys.executable, '-B', '-m', 'harness.purity_worker'] + (['--mp'] if mp else []), input=data, capture_output=True,
+    p = subprocess.run([sys.executable, '-B'] + list(pyflags) + ['-m', 'harness.purity_worker'] + (['--mp'] if mp else []) + list(flags), input=data, capture_output=True,
                        text=True, env=env, cwd=tlc.VERIF, timeout=1800)
     if p.returncode != 0:
         raise tlc.MachineryError('purity worker failed: ' + p.stderr[-2000:])
@@ -180,9 +180,11 @@ def check_C17(c):
     c.transitions += res['states']
     c.mc_runs.append(dict(module='Purity (simulation, export of call histories)', cfg='PurityX.cfg', behaviours=len(hist), wall_s=round(res['wall'], 1)))
     envs = [('hashseed 0', 0, False), ('hashseed 1', 1, False), ('hashseed 2', 2, False), ('hashseed %d' % (1000 + c.seed), 1000 + c.seed, False),
-            ('worker process, hashseed 7', 7, True)]
-    with ThreadPoolExecutor(max_workers=5) as ex:
-        logs = list(ex.map(lambda e: _worker(hist, e[1], e[2]), envs))
+            ('worker process, hashseed 7', 7, True),
+            ('unrelated calls between the calls, hashseed 5', 5, False, ('--noise',), ()),
+            ('interpreter run with -O, hashseed 3', 3, False, (), ('-O',))]
+    with ThreadPoolExecutor(max_workers=7) as ex:
+        logs = list(ex.map(lambda e: _worker(hist, e[1], e[2], *(e[3:] or ())), envs))
     traces = []
     for i, h in enumerate(hist):
         traces.append({'kind': 'purity', 'hist': h['hist'], 'pool_seed': h['pool_seed'],
@@ -250,11 +252,11 @@ def check_C17(c):
         jobs.append(('tr_api_args', dict(args=args, usage_error=usage)))
     api = pmake(jobs)
     c.judge('J_Api', api, 'api-surface', gating=False)
-    c.rule = ('call histories of 10 calls generated by TLC in simulation mode from Purity.tla (27 operations: interpret, configure, '
+    c.rule = ('call histories of 10 calls generated by TLC in simulation mode from Purity.tla (29 operations: interpret, configure, '
               'reconfigure, format, encode, decode, a re-laid-out copy, canonicalize_roles, the four transformations, graph queries, errors, diagnostics, triple-conjunction round trip, '
               'alignments, tree nodes/walk, |, -, and the in-place |=, -=, top=, appending a marker, rearrange, reset_variables) on a shared pool of 2 trees '
-              'and 2 graphs (40 different seeded pools), each replayed under PYTHONHASHSEED 0, 1, 2 and a seed-derived value and once '
-              'inside a multiprocessing worker; the command run as a real subprocess under 4 hash seeds on a stream of 12 graphs x option '
+              'and 2 graphs (40 different seeded pools), each replayed under PYTHONHASHSEED 0, 1, 2 and a seed-derived value, once '
+              'inside a multiprocessing worker, once with unrelated calls (other texts, other models that compare equal to each other) between its calls and once under python -O; the command run as a real subprocess under 4 hash seeds on a stream of 12 graphs x option '
               'sets; distinct by history; non-trivial = three or more calls')
     c.assumptions += ['projection of an object = triple list in order, explicit top, marker map as key-sorted list with marker order kept, '
                       'metadata in order / nested tree with texts; the iteration order of the marker dictionary itself is not part of it',
